@@ -501,6 +501,12 @@ func (css *Consensus) batchWorker() {
 			// Commit
 			if err := css.batchingState.Commit(css.ctx); err != nil {
 				logger.Errorf("error commiting batch after reaching max age: %s", err)
+				// The timer has fired and the batch is still
+				// pending: re-arm it so that the commit is
+				// retried, and so that a later size-triggered
+				// commit does not wait forever on a drained
+				// timer channel.
+				batchTimer.Reset(maxAge)
 				continue
 			}
 			logger.Debugf("batch commit (max age): %d items", batchCurSize)
